@@ -24,7 +24,7 @@ import (
 
 type propDef struct {
 	ID      string
-	Explain string   // what is decided / what is not
+	Explain string // what is decided / what is not
 	Run     func(c *Ctx)
 	Mutants []Mutant // checker self-validation (thorough tier)
 }
@@ -42,15 +42,16 @@ var trustedBase = []string{
 
 func main() {
 	var (
-		prop    = flag.String("prop", "", "property id (C01..C20)")
-		tier    = flag.String("tier", os.Getenv("VERIF_TIER"), "quick|thorough")
-		repo    = flag.String("repo", "/repo", "repository root")
-		verif   = flag.String("verif", "", "verif root (default: parent of the binary's dir)")
-		replay  = flag.String("replay", "", "replay file written by a failed check")
-		all     = flag.Bool("all", false, "run every property (shared load)")
-		verbose = flag.Bool("v", false, "print every obligation")
-		noMut   = flag.Bool("nomutants", false, "thorough tier without mutant self-validation")
-		onlyMut = flag.String("mutant", "", "internal: evaluate one mutant (prop:name) against -repo and print the fired keys")
+		prop     = flag.String("prop", "", "property id (C01..C20)")
+		tier     = flag.String("tier", os.Getenv("VERIF_TIER"), "quick|thorough")
+		repo     = flag.String("repo", "/repo", "repository root")
+		verif    = flag.String("verif", "", "verif root (default: parent of the binary's dir)")
+		replay   = flag.String("replay", "", "replay file written by a failed check")
+		all      = flag.Bool("all", false, "run every property (shared load)")
+		verbose  = flag.Bool("v", false, "print every obligation")
+		noMut    = flag.Bool("nomutants", false, "thorough tier without mutant self-validation")
+		onlyMut  = flag.String("mutant", "", "internal: evaluate one mutant (prop:name) against -repo and print the fired keys")
+		onePatch = flag.String("patch", "", "internal: apply the patch file to a scratch copy of -repo, run -prop, print the fired keys")
 	)
 	explain := flag.Bool("explain", false, "print {id: explanation} of every implemented property as JSON")
 	flag.Parse()
@@ -88,6 +89,9 @@ func main() {
 	}
 	if *onlyMut != "" {
 		os.Exit(runOneMutant(*onlyMut, *repo))
+	}
+	if *onePatch != "" {
+		os.Exit(runOnePatch(*prop, *onePatch, *repo))
 	}
 	var ids []string
 	if *all {
@@ -147,23 +151,49 @@ func main() {
 	}
 	for _, id := range ids {
 		r := results[id]
-		if *tier == "thorough" && !*noMut && len(props[id].Mutants) > 0 {
+		if *tier == "thorough" && !*noMut {
 			var baseline []string
 			for _, o := range r.Obs {
 				if o.st != Discharged {
 					baseline = append(baseline, o.Key())
 				}
 			}
-			tried, killed, skipped, weak := runMutants(id, *repo, baseline)
-			r.Extra["mutants_tried"] = tried
-			r.Extra["mutants_killed"] = killed
-			r.Extra["mutants_skipped_not_applicable"] = skipped
-			r.Extra["mutants_survived"] = weak
-			if len(weak) > 0 {
-				fmt.Printf("CHECKER-WEAK %s: mutants not detected: %s\n", id, strings.Join(weak, ", "))
-				if exit == 0 {
-					exit = 2
+			// Self-validation of the checker.  Its failures describe the checker,
+			// not the tree under analysis: they are printed and recorded in the
+			// evidence, and decide the exit status only under ORASCHECK_STRICT=1
+			// (tools/selftest.sh), because on an edited tree a mutant or corpus
+			// patch may legitimately stop making sense.
+			strict := os.Getenv("ORASCHECK_STRICT") == "1"
+			if len(props[id].Mutants) > 0 {
+				tried, killed, skipped, weak := runMutants(id, *repo, baseline)
+				r.Extra["mutants_tried"] = tried
+				r.Extra["mutants_killed"] = killed
+				r.Extra["mutants_skipped_not_applicable"] = skipped
+				r.Extra["mutants_survived"] = weak
+				if len(weak) > 0 {
+					fmt.Printf("CHECKER-WEAK %s: mutants not detected: %s\n", id, strings.Join(weak, ", "))
+					if exit == 0 && strict {
+						exit = 2
+					}
 				}
+			}
+			cr := runCorpus(id, *repo, *verif, baseline)
+			r.Extra["seeded_changes_tried"] = cr.SeedsTried
+			r.Extra["seeded_changes_caught"] = cr.SeedsCaught
+			r.Extra["seeded_changes_skipped_not_applicable"] = cr.SeedsSkipped
+			r.Extra["seeded_changes_missed"] = cr.Weak
+			r.Extra["benign_patches_tried"] = cr.BenignTried
+			r.Extra["benign_patches_silent"] = cr.BenignSilent
+			r.Extra["benign_patches_skipped_not_applicable"] = cr.BenignSkipped
+			r.Extra["benign_patches_alarming"] = cr.Noisy
+			if len(cr.Weak) > 0 {
+				fmt.Printf("CHECKER-WEAK %s: seeded changes no longer detected: %s\n", id, strings.Join(cr.Weak, "; "))
+			}
+			if len(cr.Noisy) > 0 {
+				fmt.Printf("CHECKER-NOISY %s: behaviour-preserving patches alarm: %s\n", id, strings.Join(cr.Noisy, "; "))
+			}
+			if (len(cr.Weak) > 0 || len(cr.Noisy) > 0) && exit == 0 && strict {
+				exit = 2
 			}
 		}
 		if code := conclude(*verif, r, seed); code == 1 || (code != 0 && exit == 0) {
